@@ -548,3 +548,131 @@ package modules
 //@   at call (*Module).RunLowPriorityMicroTask assert arg0 == m && arg1 == name && arg2 == maxDelay && arg3 == fn
 //@   at call (*Module).RunLowPriorityMicroTask ghost runs = runs + 1
 //@   ensures runs == 1 && inc == 0
+
+// ---- C01: modules start after their dependencies, stop before them (protocol obligations, A-seq)
+
+//@ spec depsOK(m *Module) bool = forall k int :: soff(m.depModules) <= k && k < soff(m.depModules) + len(m.depModules) ==> elems(m.depModules)[k] != nil
+
+// a module is ready to prep only when it is dead and every dependency is at least prepared
+//@ func (*Module).readyToPrep
+//@   requires m != nil && depsOK(m)
+//@   ensures r0 == statusReady ==> m.status == StatusDead && (forall k int :: soff(m.depModules) <= k && k < soff(m.depModules) + len(m.depModules) ==> elems(m.depModules)[k].status >= StatusOffline)
+//@   loop 0 invariant rangeindex >= -1 && rangeindex <= 1<<48 && m.status == StatusDead && (forall k int :: soff(m.depModules) <= k && k <= soff(m.depModules) + rangeindex ==> elems(m.depModules)[k].status >= StatusOffline)
+
+// a module is ready to start only when it is wanted, offline, and every dependency is online
+//@ func (*Module).readyToStart
+//@   requires cntOK(m) && m.enabled != nil && m.enabledAsDependency != nil && depsOK(m)
+//@   ensures r0 == statusReady ==> m.status == StatusOffline && (forall k int :: soff(m.depModules) <= k && k < soff(m.depModules) + len(m.depModules) ==> elems(m.depModules)[k].status >= StatusOnline)
+//@   ensures r0 == statusReady && isSet(moduleMgmtEnabled) ==> isSet(m.enabled) || isSet(m.enabledAsDependency)
+//@   loop 0 invariant rangeindex >= -1 && rangeindex <= 1<<48 && m.status == StatusOffline && (forall k int :: soff(m.depModules) <= k && k <= soff(m.depModules) + rangeindex ==> elems(m.depModules)[k].status >= StatusOnline)
+
+// the passes launch a module only when it is ready, and end without error only when every
+// launched module has reported and none is still waiting
+//@ func prepareModules
+//@   nopanic off
+//@   modifies *
+//@   ghost var ready uint8 = 0
+//@   at after (*Module).readyToPrep ghost ready = ret0
+//@   at call (*Module).prep assert ready == statusReady
+//@   at recv assert chan == reports
+//@   at return assert reportCnt >= execCnt || rep.err != nil
+//@   loop 0 invariant true
+//@   loop 1 invariant true
+
+//@ func startModules
+//@   nopanic off
+//@   modifies *
+//@   ghost var ready uint8 = 0
+//@   at after (*Module).readyToStart ghost ready = ret0
+//@   at call (*Module).start assert ready == statusReady
+//@   at recv assert chan == reports
+//@   at return assert reportCnt >= execCnt || rep.err != nil
+//@   loop 0 invariant true
+//@   loop 1 invariant true
+
+// prep: only a dead module is prepped (so prep runs once); it is marked preparing before its routine runs
+//@ func (*Module).prep
+//@   requires m != nil && reports != nil
+//@   nopanic off
+//@   modifies *
+//@   ghost var was uint8 = 0
+//@   ghost var spawned int = 0
+//@   at after (*RWMutex).Lock ghost was = m.status
+//@   at store status assert was == StatusDead && value == StatusPreparing
+//@   at go ghost spawned = spawned + 1
+//@   at go prep$2 assert was == StatusDead && m.status == StatusPreparing
+//@   ensures spawned == 1
+
+// the prep goroutine: offline only after the routine succeeded; exactly one report, carrying its error
+//@ func (*Module).prep$2
+//@   requires m != nil && reports != nil
+//@   nopanic off
+//@   modifies *
+//@   ghost var ferr error = nil
+//@   ghost var ran bool = false
+//@   ghost var sent int = 0
+//@   at after (*Module).runCtrlFnWithTimeout ghost ferr = ret0
+//@   at after (*Module).runCtrlFnWithTimeout ghost ran = true
+//@   at call (*Module).runCtrlFnWithTimeout assert arg3 == m.prepFn
+//@   at store status assert ferr == nil && value == StatusOffline
+//@   at send reports ghost sent = sent + 1
+//@   at send reports assert value != nil && value.module == m && value.err == ferr
+//@   ensures sent == 1
+
+// start: only an offline module is started; it gets a fresh context and a cleared stop flag before its routine runs
+//@ func (*Module).start
+//@   requires cntOK(m) && reports != nil
+//@   nopanic off
+//@   modifies *
+//@   ghost var was uint8 = 0
+//@   ghost var spawned int = 0
+//@   ghost var ctxNew bool = false
+//@   ghost var unflagged bool = false
+//@   at after (*RWMutex).Lock ghost was = m.status
+//@   at store status assert was == StatusOffline && value == StatusStarting
+//@   at after context.WithCancel ghost ctxNew = true
+//@   at call (*AtomicBool).UnSet assert arg0 == m.stopFlag
+//@   at call (*AtomicBool).UnSet ghost unflagged = true
+//@   at go ghost spawned = spawned + 1
+//@   at go start$2 assert was == StatusOffline && ctxNew && unflagged
+//@   ensures spawned == 1
+
+// the start goroutine: online (and start-complete signalled) only after the routine succeeded; exactly one report
+//@ func (*Module).start$2
+//@   requires m != nil && reports != nil
+//@   nopanic off
+//@   modifies *
+//@   ghost var ferr error = nil
+//@   ghost var sent int = 0
+//@   at after (*Module).runCtrlFnWithTimeout ghost ferr = ret0
+//@   at call (*Module).runCtrlFnWithTimeout assert arg3 == m.startFn
+//@   at store status assert ferr == nil && value == StatusOnline
+//@   at close assert ferr == nil && chan == m.startComplete
+//@   at send reports ghost sent = sent + 1
+//@   at send reports assert value != nil && value.module == m && value.err == ferr
+//@   ensures sent == 1
+
+// a management pass: rebuild the wanted set, stop what is no longer wanted, then start what is
+//@ func ManageModules
+//@   nopanic off
+//@   modifies *
+//@   ghost var step int = 0
+//@   at call buildEnabledTree assert step == 0
+//@   at call buildEnabledTree ghost step = 1
+//@   at call stopModules assert step == 1
+//@   at call stopModules ghost step = 2
+//@   at call startModules assert step == 2
+//@   at call startModules ghost step = 3
+//@   at return assert step == 3 || step == 0
+
+// Shutdown: stops all modules (once) and returns only afterwards
+//@ func Shutdown
+//@   nopanic off
+//@   modifies *
+//@   ghost var stopped int = 0
+//@   ghost var swapped bool = false
+//@   at after (*AtomicBool).SetToIf ghost swapped = ret0
+//@   at call stopModules assert swapped
+//@   at call stopModules ghost stopped = stopped + 1
+//@   ensures swapped ==> stopped == 1
+//@   ensures !swapped ==> stopped == 0 && r0 != nil
